@@ -747,41 +747,44 @@ impl ObjectStoreMetadataClient {
     pub async fn rebuild_time_index(&self) -> Result<()> {
         info!("Rebuilding time index from chunk metadata...");
 
-        // Load all chunk metadata (from catalog or legacy)
-        let (mut catalog, _etag) = self.load_catalog_with_etag().await?;
+        // Load, rebuild and save under the catalog's ETag: a registration, deletion or
+        // compaction swap that commits in between makes the save fail, and the index is
+        // rebuilt from the new catalog instead of overwriting it.
+        let catalog = cas_retry!({
+            // Load all chunk metadata (from catalog or legacy)
+            let (mut catalog, etag) = self.load_catalog_with_etag().await?;
 
-        // Build new time index from chunk metadata
-        let mut time_index = BTreeMap::new();
+            // Build new time index from chunk metadata
+            let mut time_index = BTreeMap::new();
 
-        for (path, extended) in catalog.chunks.iter() {
-            let start_bucket = Self::hour_bucket(extended.base.min_timestamp);
-            let end_bucket = Self::hour_bucket(extended.base.max_timestamp);
+            for (path, extended) in catalog.chunks.iter() {
+                let start_bucket = Self::hour_bucket(extended.base.min_timestamp);
+                let end_bucket = Self::hour_bucket(extended.base.max_timestamp);
 
-            let mut bucket = start_bucket;
-            while bucket <= end_bucket {
-                time_index
-                    .entry(bucket)
-                    .or_insert_with(Vec::new)
-                    .push(path.clone());
-                // checked: the last representable hour bucket has no successor
-                bucket = match bucket.checked_add(Self::NANOS_PER_HOUR) {
-                    Some(b) => b,
-                    None => break,
-                };
+                let mut bucket = start_bucket;
+                while bucket <= end_bucket {
+                    time_index
+                        .entry(bucket)
+                        .or_insert_with(Vec::new)
+                        .push(path.clone());
+                    // checked: the last representable hour bucket has no successor
+                    bucket = match bucket.checked_add(Self::NANOS_PER_HOUR) {
+                        Some(b) => b,
+                        None => break,
+                    };
+                }
             }
-        }
 
-        catalog.time_index = time_index.clone();
-        catalog.version = 2;
+            catalog.time_index = time_index;
+            catalog.version = 2;
 
-        // Save the rebuilt catalog
-        let path = self.catalog_path();
-        let content = serde_json::to_string_pretty(&catalog)?;
-        let bytes = content.into_bytes();
-        self.object_store.put(&path, bytes.into()).await?;
+            // Save the rebuilt catalog
+            self.atomic_save_catalog(&catalog, etag).await?;
+            Ok(catalog)
+        })?;
 
         // Also save to legacy time index for backward compat
-        self.save_time_index(&time_index).await?;
+        self.save_time_index(&catalog.time_index).await?;
 
         info!(
             "Rebuilt time index with {} buckets covering {} chunks",
